@@ -3,5 +3,6 @@ import Gotree.Model.C14
 import Gotree.Model.Core
 import Gotree.Model.Dump
 import Gotree.Spec.C14
+import Gotree.Spec.Splits
 import Gotree.Lemmas.C14
 import Gotree.Proofs.C14
